@@ -671,6 +671,12 @@ class CompilerPassGenerateCode(CompilerPass):
                     # the source is assigned again later: sharing its register would make the
                     # target follow those later assignments
                     can_assign_directly = False
+                if isinstance(value, IC10Register) and any(
+                    isinstance(w.parent, nodes.For) and w.parent.target is w
+                    for w in value.nodes_writing
+                ):
+                    # the source is a loop variable: it changes with every iteration
+                    can_assign_directly = False
                 if can_assign_directly:
                     sym_data.code_expr = (
                         value.code_expr
